@@ -153,8 +153,8 @@ def c03_pipe_plans(ctx):
             for delay in ((0.01,) if not ctx.thorough() else (0.01, 0.0, 0.2)):
                 plans.append([("pipe", [first] + nxt, delay)])
     # a transfer whose worker finishes while the NEXT command is still in its guards, and a USER behind that one
-    for first in ("LIST", "MLSD a", "RETR x.txt", "STOR up.bin"):
-        for second in ("RETR x.txt", "RETR a/y.txt", "MLST x.txt", "DELE x.txt", "LIST a", "MKD made2"):
+    for first in (("LIST", "RETR x.txt") if not ctx.thorough() else ("LIST", "MLSD a", "RETR x.txt", "STOR up.bin")):
+        for second in (("RETR x.txt", "MLST x.txt", "DELE x.txt") if not ctx.thorough() else ("RETR x.txt", "RETR a/y.txt", "MLST x.txt", "DELE x.txt", "LIST a", "MKD made2")):
             # (one backend call of the second command's guards is slow; the first command's worker is done meanwhile)
             for delay in (({"is_file": 0.5, "exists": 0.3},) if not ctx.thorough() else ({"is_file": 0.5, "exists": 0.3}, {"exists": 0.5}, 0.01, 0.2)):
                 plans.append([("pipe", [first, second, "USER alice"], delay)])
